@@ -1,8 +1,8 @@
 """Mutation self-test: applies each mutant (a textual patch from /verif/mutants/*.json, or a
-seeded change /verif/seeded/<id>/patch.diff) to the /repo working tree, runs the quick check of
-the property it is meant to break, expects exit 1 with a VIOLATION line, and restores the tree
-(git checkout) straight afterwards.  Not part of quick/thorough; never run concurrently with
-other checks (it edits /repo's working tree temporarily).
+seeded change /verif/seeded/<id>/patch.diff) to a SCRATCH git worktree of /repo under /tmp (removed
+at the end; /repo itself is never touched), runs the quick check of the property it is meant to
+break against that copy (VERIF_REPO), expects exit 1 with a VIOLATION line, and restores the copy
+(git checkout) straight afterwards.  Not part of quick/thorough.
 
 usage: vcheck selftest [--seeded] [--tier quick|thorough] [Cxx ...] [name-substring ...]"""
 import glob
@@ -13,7 +13,8 @@ import sys
 import time
 
 VERIF = os.path.dirname(os.path.dirname(os.path.abspath(__file__)))
-REPO = os.environ.get('VERIF_REPO', '/repo')
+SRC_REPO = '/repo'
+REPO = '/tmp/verif_selftest_wt_%d' % os.getpid()     # scratch worktree: /repo itself is never modified
 
 
 def _clean():
@@ -29,6 +30,7 @@ def _run_check(pid, tier):
     env = dict(os.environ)
     env['VERIF_NO_EVIDENCE'] = '1'
     env['VERIF_REPLAY_DIR'] = '/tmp/verif_selftest_replays'
+    env['VERIF_REPO'] = REPO
     t0 = time.time()
     r = subprocess.run([os.path.join(VERIF, 'vcheck'), pid, '--tier', tier], capture_output=True, text=True, env=env)
     return r.returncode, r.stdout, time.time() - t0
@@ -44,9 +46,23 @@ def main(argv):
     argv = [a for a in argv if a != '--seeded']
     pids = [a for a in argv if a.startswith('C') and a[1:].isdigit()]
     subs = [a for a in argv if a not in pids]
-    if _dirty():
-        print("selftest: /repo working tree is not clean; refusing to run")
+    subprocess.run(['git', '-C', SRC_REPO, 'worktree', 'remove', '--force', REPO], capture_output=True)
+    r = subprocess.run(['git', '-C', SRC_REPO, 'worktree', 'add', '--detach', REPO, 'HEAD'], capture_output=True, text=True)
+    if r.returncode != 0:
+        print("selftest: cannot create scratch worktree: " + r.stderr)
         return 2
+    # carry over uncommitted edits of /repo's working tree (the checks always run on the working tree)
+    d = subprocess.run(['git', '-C', SRC_REPO, 'diff', 'HEAD'], capture_output=True, text=True).stdout
+    if d.strip():
+        subprocess.run(['git', '-C', REPO, 'apply'], input=d, text=True, check=True)
+        subprocess.run(['git', '-C', REPO, 'commit', '-qam', 'working tree'], capture_output=True)
+    try:
+        return _main(tier, seeded_only, pids, subs)
+    finally:
+        subprocess.run(['git', '-C', SRC_REPO, 'worktree', 'remove', '--force', REPO], capture_output=True)
+
+
+def _main(tier, seeded_only, pids, subs):
     items = []
     if not seeded_only:
         for f in sorted(glob.glob(os.path.join(VERIF, 'mutants', '*.json'))):
